@@ -4,4 +4,5 @@ MODULES = {
     'Calendar': 'calendar',
     'ApiPhases': 'api_phases',
     'Globals': 'globals',
+    'PersistKeys': 'persist_keys',
 }
